@@ -932,6 +932,63 @@ def rule_G2_all_caches(ctx, typer):
     return n
 
 
+def _glob_normaliser(ctx, f, e, pv):
+    """the list walked by __glob is `out` of: out = []; for part in <split components>: [if part in <subset of ('', '.')>: continue]
+    [if part == '**' and out and out[-1] == '**': continue] out.append(part) - nothing else (written in a private helper of
+    the resolver or, after inlining, in glob itself)"""
+    from ..model import Func, mangle, strip_doc
+    from .common import resolve_local
+    if isinstance(e, ast.Call) and isinstance(e.func, ast.Attribute) and len(e.args) == 1 and norm(e.args[0]) == pv and not e.keywords \
+            and e.func.attr.startswith("__") and f.cls is not None:
+        h = f.cls.members.get(mangle(f.cls.name, e.func.attr))
+        if not isinstance(h, Func):
+            return False
+        body = strip_doc(h.node.body)
+        prm = [q for q in h.posparams if q != h.selfname]
+        if len(body) != 3 or len(prm) != 1 or not isinstance(body[2], ast.Return):
+            return False
+        ctx.touch(h)
+        return _normaliser_loop(body[0], body[1], prm[0], norm(body[2].value))
+    if isinstance(e, ast.Name):
+        # one alias step at most (`result = out`)
+        al = [x for x in walk_own(f.node) if isinstance(x, ast.Assign) and len(x.targets) == 1 and norm(x.targets[0]) == e.id]
+        out = al[0].value.id if len(al) == 1 and isinstance(al[0].value, ast.Name) else e.id
+        body = f.node.body
+        inits = [i for i, st in enumerate(body) if isinstance(st, ast.Assign) and len(st.targets) == 1 and norm(st.targets[0]) == out]
+        if len(inits) != 1 or inits[0] + 1 >= len(body):
+            return False
+        others = [x for x in walk_own(f.node) if isinstance(x, ast.Name) and x.id == out and isinstance(x.ctx, ast.Store)]
+        if len(others) != 1:
+            return False
+        return _normaliser_loop(body[inits[0]], body[inits[0] + 1], pv, out)
+    return False
+
+
+def _normaliser_loop(init, loop, src, out):
+    if not (isinstance(init, ast.Assign) and len(init.targets) == 1 and isinstance(init.targets[0], ast.Name) and isinstance(init.value, ast.List)
+            and not init.value.elts and init.targets[0].id == out):
+        return False
+    if not (isinstance(loop, ast.For) and isinstance(loop.target, ast.Name) and norm(loop.iter) == src and not loop.orelse and loop.body):
+        return False
+    v = loop.target.id
+    *skips, last = loop.body
+    if " ".join(norm(last).split()) != "%s.append(%s)" % (out, v):
+        return False
+    for sk in skips:
+        if not (isinstance(sk, ast.If) and not sk.orelse and len(sk.body) == 1 and isinstance(sk.body[0], ast.Continue)):
+            return False
+        t = sk.test
+        if isinstance(t, ast.Compare) and len(t.ops) == 1 and isinstance(t.ops[0], ast.In) and norm(t.left) == v \
+                and isinstance(t.comparators[0], (ast.Tuple, ast.List, ast.Set)) \
+                and all(isinstance(x, ast.Constant) and x.value in ("", ".") for x in t.comparators[0].elts):
+            continue
+        if isinstance(t, ast.BoolOp) and isinstance(t.op, ast.And) and [" ".join(norm(x).split()) for x in t.values] in (
+                ["%s == '**'" % v, out, "%s[-1] == '**'" % out], ["%s == '**'" % v, "%s[-1:] == ['**']" % out]):
+            continue
+        return False
+    return True
+
+
 def rule_R7_parts_unmodified(ctx, typer):
     """the components walked are exactly those produced by the start-up split: between `__start` and the walk the
     component list is neither rebuilt nor edited (every component is looked up; none is cancelled or skipped)"""
@@ -959,6 +1016,11 @@ def rule_R7_parts_unmodified(ctx, typer):
             if isinstance(node, ast.Call) and norm(node.func).endswith("__glob") and len(node.args) == 2:
                 consumers.append(("glob", node.args[1], node))
         ok = bool(consumers) and all(isinstance(e, ast.Name) and e.id == pv for kind, e, node in consumers)
+        if not ok and fname == "glob" and consumers and all(kind == "glob" and _glob_normaliser(ctx, f, e, pv) for kind, e, node in consumers):
+            # glob may drop the components that stay at the current node ('' and '.') and collapse a run of ADJACENT '**'
+            # before the walk: both denote the same nodes in the same order (for get the positions of '' matter: not accepted there)
+            ok = True
+            ctx.notes.append("R7: glob walks the split components minus ''/'.' and with adjacent '**' collapsed (table of two idioms)")
         edits = [x for x in walk_own(f.node) if (isinstance(x, ast.Call) and isinstance(x.func, ast.Attribute) and isinstance(x.func.value, ast.Name)
                                                   and x.func.value.id == pv and x.func.attr in T.MUTATING_METHODS)
                  or (isinstance(x, ast.Assign) and any(isinstance(t, ast.Name) and t.id == pv for t in x.targets) and not norm(x.value.func if isinstance(x.value, ast.Call) else x.value).endswith("__start"))]
@@ -1307,6 +1369,15 @@ def rule_R8_split_unfiltered(ctx, typer):
         ctx.extra.setdefault("undecided", []).append("R8: Resolver.__start takes the root component with partition() and splits the rest separately: "
                                                      "that this equals one split of the whole path is not followed")
         return 1
+    if not splits:
+        # the path handed to a private helper of the resolver that does the splitting (and may drop no-op components, cache ...)
+        pathp_ = [q for q in f.posparams if q not in (f.selfname,)][1] if len(f.posparams) > 2 else "path"
+        helpers_ = [c for c in walk_own(f.node) if isinstance(c, ast.Call) and isinstance(c.func, ast.Attribute) and c.func.attr.startswith("__")
+                    and any(isinstance(a, ast.Name) and a.id == pathp_ for a in c.args)]
+        if helpers_:
+            ctx.extra.setdefault("undecided", []).append("R8: Resolver.__start hands the path to `%s`, which parses it: what that helper does to the "
+                                                         "components is not followed" % norm(helpers_[0].func))
+            return 1
     if len(splits) != 1:
         ctx.viol("R8", f, f.node, "the path is not split exactly once into its components", construct="__start: %d split calls" % len(splits))
         return 1
